@@ -8,7 +8,8 @@
 //   VirtMem::info / large_page_size / hardened_runtime_info  constants chosen by the harness
 //   pthread_mutex_lock / unlock             a depth counter with nesting assertions; the real Lock / LockGuard run on top
 //   ArenaTree<JitAllocatorBlock>            typed-pointer model (tree_model.h); the block's address-range comparison stays real
-//   ::free(block)                           pre-state blocks are typed statics: recorded + poisoned (jenv_free)
+//   ::free(block) / ::malloc(block)         pre-state blocks are typed statics: free is recorded + poisons (jenv_free); the one
+//                                           block JitAllocator_new_block may create per run comes from a fixed buffer (jenv_malloc)
 #pragma once
 #include "verif.h"
 #include <pthread.h>
@@ -30,8 +31,11 @@
 #include <asmjit/support/arenatree.h>
 #include <asmjit/support/support.h>
 void jenv_free(void* p) noexcept;
+void* jenv_malloc(size_t size) noexcept;
 #define free jenv_free
+#define malloc jenv_malloc
 #include "../../../repo/asmjit/core/jitallocator.cpp"
+#undef malloc
 #undef free
 
 namespace jenv {
@@ -45,16 +49,17 @@ static int lock_depth, lock_count, unlock_count;
 static int rw_depth, protect_calls, flush_calls;
 static int env_calls_unlocked, env_calls_locked;   // stub calls made without / with the allocator lock held
 static int vm_alloc_calls, vm_release_calls;
-static bool vm_alloc_fail;
+static bool vm_alloc_fail, vm_fail_first_only;   // every request refused / only the first one (large pages) refused
 static uint8_t *vm_next_rx, *vm_next_rw;           // what the next VirtMem::alloc* returns
 static size_t vm_alloc_size; static uint32_t vm_alloc_flags;
 static void *vm_released_rx, *vm_released_rw; static size_t vm_released_size;
 static size_t vm_large_page_size;
 static void (*on_lock)(); static void (*on_unlock)();
+static int new_block_mallocs; static bool new_block_freed;
 
 static inline void env_reset() {
   lock_depth = lock_count = unlock_count = 0; rw_depth = protect_calls = flush_calls = 0;
-  env_calls_unlocked = env_calls_locked = 0; vm_alloc_calls = vm_release_calls = 0; vm_alloc_fail = false;
+  env_calls_unlocked = env_calls_locked = 0; vm_alloc_calls = vm_release_calls = 0; vm_alloc_fail = false; vm_fail_first_only = false;
   vm_next_rx = vm_next_rw = nullptr; vm_alloc_size = 0; vm_alloc_flags = 0;
   vm_released_rx = vm_released_rw = nullptr; vm_released_size = 0; vm_large_page_size = 0;
   on_lock = nullptr; on_unlock = nullptr;
@@ -88,7 +93,7 @@ void protect_jit_memory(ProtectJitAccess access) noexcept {
 }
 Error alloc(void** p, size_t size, MemoryFlags flags) noexcept {
   jenv::env_call(); jenv::vm_alloc_calls++; jenv::vm_alloc_size = size; jenv::vm_alloc_flags = uint32_t(flags);
-  if (jenv::vm_alloc_fail) { *p = nullptr; return make_error(Error::kOutOfMemory); }
+  if (jenv::vm_alloc_fail || (jenv::vm_fail_first_only && jenv::vm_alloc_calls == 1)) { *p = nullptr; return make_error(Error::kOutOfMemory); }
   *p = jenv::vm_next_rx; return Error::kOk;
 }
 Error release(void* p, size_t size) noexcept {
@@ -189,7 +194,7 @@ static constexpr size_t kArenaBytes = JENV_ARENA_BYTES;
 #elif defined(VERIF_CBMC)
 static constexpr size_t kArenaBytes = 64;
 #else
-static constexpr size_t kArenaBytes = 4 * 32768;
+static constexpr size_t kArenaBytes = 5 * 65536;
 #endif
 alignas(64) static uint8_t arena_rx[kArenaBytes];
 alignas(64) static uint8_t arena_rw[kArenaBytes];
@@ -198,7 +203,7 @@ static inline uint8_t* arena_at(uint8_t* view, size_t off) { return view + off; 
 // As JitAllocator_new_impl builds it (options / granularity / block size chosen by the harness; the public constructor
 // only creates block_size >= 64 KiB — the harnesses scale blocks down to 64*W granules, see spec.py OUTSIDE).
 static inline JitAllocatorPrivateImpl* make_impl(uint32_t options, uint32_t granularity, uint32_t block_size, uint32_t pool_count, uint32_t fill_pattern) {
-  env_reset();
+  env_reset(); new_block_mallocs = 0; new_block_freed = false;
   JitAllocatorPrivateImpl* im = new (Support::PlacementNew{impl()}) JitAllocatorPrivateImpl(pool(0), pool_count);
   im->options = JitAllocatorOptions(options); im->block_size = block_size; im->granularity = granularity; im->fill_pattern = fill_pattern;
   im->page_size = 4096;
@@ -221,6 +226,12 @@ template<uint32_t W> struct BState {
   uint32_t P() const { return flags & kFP; }
   void free_mask(uint64_t* F) const { for (uint32_t i = 0; i < W; i++) F[i] = ~U[i]; }
   bool has_free_run(uint32_t k) const { uint64_t F[W]; free_mask(F); return has_run_v<W>(F, k); }
+  // number of maximal runs of free granules
+  uint32_t free_run_count() const {
+    uint32_t n = 0; uint64_t carry = 1;   // "granule -1 is used"
+    for (uint32_t i = 0; i < W; i++) { uint64_t f = ~U[i]; uint64_t prev_used = (U[i] << 1) | carry; n += (uint32_t)__builtin_popcountll(f & prev_used); carry = U[i] >> 63; }
+    return n;
+  }
   // i is the first granule of a live span (the initial padding granule is not a span)
   bool is_span_start(uint32_t i) const { return i < A && used(i) && !(P() && i == 0) && (i == 0 || !used(i - 1) || stop(i - 1)); }
   // end (exclusive) of the span starting at / containing granule i: first stop bit at or after i, plus one
@@ -367,6 +378,17 @@ static JitAllocatorBlock block_obj0(&pool_objs[0], VirtMem::DualMapping{}, 0, 0,
 static JitAllocatorBlock block_obj1(&pool_objs[0], VirtMem::DualMapping{}, 0, 0, &init_words[0], &init_words[1], 0);
 static inline JitAllocatorBlock* block_obj(uint32_t k) { return k == 0 ? &block_obj0 : &block_obj1; }
 static bool block_freed[kMaxBlocks];
+// storage for the block JitAllocator_new_block creates (header + 2 bit vectors of up to JENV_NEW_BLOCK_WORDS words each),
+// handed out once per run; a typed object, so that the solver keeps the header's pointer fields apart
+#if !defined(JENV_NEW_BLOCK_WORDS)
+#define JENV_NEW_BLOCK_WORDS 4
+#endif
+struct NewBlockStore {
+  JitAllocatorBlock hdr; uint64_t bits[2 * JENV_NEW_BLOCK_WORDS];
+  NewBlockStore() : hdr(&pool_objs[0], VirtMem::DualMapping{}, 0, 0, &init_words[0], &init_words[1], 0) {}
+};
+static NewBlockStore new_block_store;
+static_assert(offsetof(NewBlockStore, bits) == sizeof(JitAllocatorBlock), "bit vectors directly behind the header");
 template<uint32_t W> static inline JitAllocatorBlock* new_block_object(uint32_t k) {
   JitAllocatorBlock* b = block_obj(k); block_freed[k] = false;
   b->_tree_left = nullptr; b->_tree_right = nullptr; b->_list_nodes[0] = nullptr; b->_list_nodes[1] = nullptr;
@@ -401,5 +423,11 @@ void jenv_free(void* p) noexcept {
       return;
     }
   }
+  if (p == static_cast<void*>(&jenv::new_block_store)) { V_ASSERT(!jenv::new_block_freed, "free: the new block is freed at most once"); jenv::new_block_freed = true; return; }
   ::free(p);
+}
+void* jenv_malloc(size_t size) noexcept {
+  V_ASSERT(jenv::new_block_mallocs == 0 && size <= sizeof(jenv::new_block_store), "malloc: one block object per run, within the harness buffer");
+  jenv::new_block_mallocs++;
+  return &jenv::new_block_store;
 }
